@@ -52,7 +52,7 @@ def main():
         return base[which][prop]
     res_path = os.path.join(VERIF, "seeded", "RESULTS%s.json" % SLOT)
     results = json.load(open(res_path)) if os.path.exists(res_path) else {}
-    seeds = sorted(glob.glob(os.path.join(VERIF, "seeded", "C*", "[0-9]")))
+    seeds = sorted(glob.glob(os.path.join(VERIF, "seeded", "C*", "[0-9]*")))
     for d in seeds:
         pid, k = d.split("/")[-2], d.split("/")[-1]
         tag = "%s/%s" % (pid, k)
